@@ -165,6 +165,26 @@ def body_faithful(case, ctx):
         perm = rngctl.rng(case["seed"], 4).permutation(x.size)
         if not (np.array_equal(np.asarray(kde(x[perm])), p[perm]) and np.array_equal(np.asarray(kde.cdf(x[perm])), c[perm])):
             raise Violation(f"eval-order:{tag}", "result depends on the order of the evaluation points")
+    # whole-number evaluation points held as integers (array, list of Python ints, int scalar) are the same points
+    xi = np.unique(np.round(x[np.abs(x) < 2**31]))
+    if xi.size:
+        xi = xi[:: max(1, xi.size // 12)]
+        epi, eci = exact_pdf(xi, sample, h), exact_cdf(xi, sample, h)
+        rr = 64 * EPS * (np.abs(xi).max() + np.abs(sample).max()) / h
+        forms = (("int64 array", xi.astype(np.int64)), ("list of ints", [int(v) for v in xi]), ("int scalar", int(xi[xi.size // 2])))
+        for name, arg in forms:
+            with np.errstate(all="ignore"):
+                pi, ci = np.atleast_1d(np.asarray(kde(arg), dtype=float)), np.atleast_1d(np.asarray(kde.cdf(arg), dtype=float))
+            sel = slice(None) if name != "int scalar" else slice(xi.size // 2, xi.size // 2 + 1)
+            if pi.shape != epi[sel].shape or ci.shape != eci[sel].shape:
+                raise Violation(f"int-points-shape:{tag}", f"{name}: pdf {pi.shape}, cdf {ci.shape} for {epi[sel].shape} points")
+            bad_p = np.abs(pi - epi[sel]) > PDF_BOUND * unit + (1e-12 + rr) * epi[sel]
+            bad_c = np.abs(ci - eci[sel]) > CDF_BOUND + 1e-12 + rr
+            if np.any(bad_p) or np.any(bad_c):
+                k = int(np.argmax(bad_p | bad_c))
+                raise Violation(f"int-points:{tag}", f"{case['family']} n={sample.size} h={h:.4g}: evaluation at whole-number points given as {name}: pdf({xi[sel][k]!r}) = {pi[k]!r} (exact {epi[sel][k]!r}), "
+                                                     f"cdf = {ci[k]!r} (exact {eci[sel][k]!r})")
+        ctx.event("integer-eval-points")
     # order of the sample irrelevant
     kde2 = build(sample[rngctl.rng(case["seed"], 5).permutation(sample.size)], kw)
     with np.errstate(all="ignore"):
